@@ -521,6 +521,12 @@ def render_item(relpath, kind, name, opts, pre_lines, log):
             raise LostAnchor(f'struct {name}: kept field(s) {sorted(missing)} not found')
         text = text[:o + 1] + '\n' + ',\n'.join(kept) + ',\n' + text[c:]
         log.append(dict(rule='D4', item=name, pruned=pruned))
+    if kind in ('const', 'static'):
+        # rule R16: the elided lifetime in a const/static type is 'static; Verus wants it spelled out
+        m = re.match(r'(?s)^(.*?\b(?:const|static)\s+[A-Za-z_][A-Za-z0-9_]*\s*:\s*)([^=]+?)(\s*=.*)$', text)
+        if m and re.search(r"&(?!\s*')", m.group(2)):
+            text = m.group(1) + re.sub(r"&(?!\s*')", "&'static ", m.group(2)) + m.group(3)
+            log.append(dict(rule='R16', item=name, what="elided lifetime in const type spelled 'static"))
     if kind == 'const' and opts.get('execconst'):
         # rule R14: `const N: T = EXPR;` -> `exec const N: T <ensures...> { EXPR }` so the value gets a checked spec
         m = re.match(r'(?s)^(.*?\bconst\s+[A-Za-z_][A-Za-z0-9_]*\s*:\s*[^=]+?)\s*=\s*(.*);\s*$', text)
@@ -528,6 +534,9 @@ def render_item(relpath, kind, name, opts, pre_lines, log):
             raise LostAnchor(f'const {name}: unexpected shape for rule R14')
         text = m.group(1).replace('const ', 'exec const ', 1) + '\n' + '\n'.join(pre_lines) + '\n{ ' + m.group(2) + ' }'
         pre_lines = []
+        if opts.get('assume_value'):
+            # the ensures clause of this const is ASSUMED (its initialiser is a literal Verus cannot evaluate); listed by the trusted-base scan
+            pre_lines = ['#[verifier::external_body]']
         log.append(dict(rule='R14', item=name, what='const initialiser turned into an exec const body with an ensures clause'))
     if opts.get('pub') and not re.match(r'\s*pub\b', text):
         text = 'pub ' + text
